@@ -547,7 +547,14 @@ CLAIMED["C04"] = dict(
          "all 21 rules); every sink call is inside the TreeSink contract (Props/C05TB.lean), so RcDom's own asserts are "
          "unreachable too - C04_tb_total_full': under the tokenizer protocol, for tags without duplicate attribute names, the "
          "ONLY failures the model can still report are the option->selectedcontent mirror call's own (called within its "
-         "contract; its success needs more than the contract) and the two encoding.rs messages about the slice being UTF-8. "
+         "contract; its success needs more than the contract) and the two encoding.rs messages about the slice being UTF-8 (which "
+         "Props/C19Decodes.lean shows cannot arise). THE JOINT PARSE (Props/C04Joint.lean): for EVERY input text, tokenizer and "
+         "tree-builder option set, BOM flag and chunking there is a budget N0 of the driver's loop beyond which the outcome of the "
+         "joint model (tokenizer model with the tree-builder model as its sink, driver loop, Parser::finish) is fixed and is either "
+         "success or the failure of a mutating sink op / one of those two messages - no panic site of tokenizer, character-reference "
+         "tokenizer, tree builder or driver (incl. the asserts of driver.rs and Tokenizer::end), no fuel or budget bound is ever hit "
+         "(C04_joint_total_chunked_partial; `_partial`: the failure disjunct is not yet narrowed to the mirror op alone); with it the "
+         "capstone of C02 no longer assumes that the run succeeds (C02_parse_eq_spec_total_nohrun). "
          "Real stack exhaustion, allocator aborts and wall-clock time cannot be exhibited by a model. Exercised instead - every tokenizer cover case and stress string (HTML and XML, whole and chunked), "
          "whole-parser runs on pathological documents/fragments/XML (every element class nested 3*10^3 deep in quick, 10^5 deep "
          "and 10^6 long in thorough), every element name x every fragment context, the adoption-agency / Noah's-ark / foster-"
